@@ -8,7 +8,9 @@
 (* dispute, counted but not alarmed.                                           *)
 EXTENDS Regex, ObsLib
 CONSTANT MaxLen
-Subj == Subjects(MaxLen)
+\* the canonical subject sequence is read back from the emitter's own file
+SubjFile == ndJsonDeserialize(IOEnv.VERIF_AUX)
+Subj == [i \in 1..Len(SubjFile) |-> SubjFile[i].s]
 Want(a, k) == IF Search(a, Subj[k]) THEN 1 ELSE 0
 Verdict(o) ==
   IF o.engine = "err" THEN "viol-does-not-compile"
